@@ -8,22 +8,359 @@ import (
 	"github.com/tdewolff/parse/v2"
 )
 
-// VerifW: whole run of json.Parser over every byte string of length 0..N.
+func vnIsWS(c byte) bool { return c == ' ' || c == '\n' || c == '\r' || c == '\t' }
+
+// ---- reference recogniser for RFC 8259 (validated natively against encoding/json) ----
+
+func refWS(b []byte, i int) int {
+	for i < len(b) && vnIsWS(b[i]) {
+		i++
+	}
+	return i
+}
+
+func refHex(c byte) bool {
+	return c >= '0' && c <= '9' || c >= 'a' && c <= 'f' || c >= 'A' && c <= 'F'
+}
+
+func refString(b []byte, i int) int {
+	if i >= len(b) || b[i] != '"' {
+		return -1
+	}
+	i++
+	for i < len(b) {
+		c := b[i]
+		if c == '"' {
+			return i + 1
+		}
+		if c < 0x20 {
+			return -1
+		}
+		if c == '\\' {
+			if i+1 >= len(b) {
+				return -1
+			}
+			e := b[i+1]
+			if e == 'u' {
+				if i+5 >= len(b) || !refHex(b[i+2]) || !refHex(b[i+3]) || !refHex(b[i+4]) || !refHex(b[i+5]) {
+					return -1
+				}
+				i += 6
+				continue
+			}
+			if e == '"' || e == '\\' || e == '/' || e == 'b' || e == 'f' || e == 'n' || e == 'r' || e == 't' {
+				i += 2
+				continue
+			}
+			return -1
+		}
+		i++
+	}
+	return -1
+}
+
+func refDigit(b []byte, i int) bool { return i < len(b) && b[i] >= '0' && b[i] <= '9' }
+
+func refNumber(b []byte, i int) int {
+	if i < len(b) && b[i] == '-' {
+		i++
+	}
+	if !refDigit(b, i) {
+		return -1
+	}
+	if b[i] == '0' {
+		i++
+	} else {
+		for refDigit(b, i) {
+			i++
+		}
+	}
+	if i < len(b) && b[i] == '.' {
+		i++
+		if !refDigit(b, i) {
+			return -1
+		}
+		for refDigit(b, i) {
+			i++
+		}
+	}
+	if i < len(b) && (b[i] == 'e' || b[i] == 'E') {
+		i++
+		if i < len(b) && (b[i] == '+' || b[i] == '-') {
+			i++
+		}
+		if !refDigit(b, i) {
+			return -1
+		}
+		for refDigit(b, i) {
+			i++
+		}
+	}
+	return i
+}
+
+func refLit(b []byte, i int, s string) int {
+	if i+len(s) > len(b) {
+		return -1
+	}
+	for j := 0; j < len(s); j++ {
+		if b[i+j] != s[j] {
+			return -1
+		}
+	}
+	return i + len(s)
+}
+
+// refValue returns the end of the JSON value starting at i (after optional whitespace), or -1.
+func refValue(b []byte, i int) int {
+	i = refWS(b, i)
+	if i >= len(b) {
+		return -1
+	}
+	switch c := b[i]; {
+	case c == '{':
+		i = refWS(b, i+1)
+		if i < len(b) && b[i] == '}' {
+			return i + 1
+		}
+		for {
+			i = refWS(b, i)
+			i = refString(b, i)
+			if i < 0 {
+				return -1
+			}
+			i = refWS(b, i)
+			if i >= len(b) || b[i] != ':' {
+				return -1
+			}
+			i = refValue(b, i+1)
+			if i < 0 {
+				return -1
+			}
+			i = refWS(b, i)
+			if i >= len(b) {
+				return -1
+			}
+			if b[i] == '}' {
+				return i + 1
+			}
+			if b[i] != ',' {
+				return -1
+			}
+			i++
+		}
+	case c == '[':
+		i = refWS(b, i+1)
+		if i < len(b) && b[i] == ']' {
+			return i + 1
+		}
+		for {
+			i = refValue(b, i)
+			if i < 0 {
+				return -1
+			}
+			i = refWS(b, i)
+			if i >= len(b) {
+				return -1
+			}
+			if b[i] == ']' {
+				return i + 1
+			}
+			if b[i] != ',' {
+				return -1
+			}
+			i++
+		}
+	case c == '"':
+		return refString(b, i)
+	case c == 't':
+		return refLit(b, i, "true")
+	case c == 'f':
+		return refLit(b, i, "false")
+	case c == 'n':
+		return refLit(b, i, "null")
+	default:
+		return refNumber(b, i)
+	}
+}
+
+func refValid(b []byte) bool {
+	i := refValue(b, 0)
+	if i < 0 {
+		return false
+	}
+	return refWS(b, i) == len(b)
+}
+
+// refCompact removes whitespace outside strings (only meaningful for valid documents).
+func refCompact(b []byte) []byte {
+	out := make([]byte, 0, len(b))
+	for i := 0; i < len(b); {
+		if b[i] == '"' {
+			e := refString(b, i)
+			if e < 0 {
+				e = len(b)
+			}
+			out = append(out, b[i:e]...)
+			i = e
+			continue
+		}
+		if !vnIsWS(b[i]) {
+			out = append(out, b[i])
+		}
+		i++
+	}
+	return out
+}
+
+const (
+	vnObj = 1
+	vnArr = 2
+)
+
+// VerifW: whole run of json.Parser over every byte string of length 0..N:
+// termination, sticky end, nesting, State(), separators between units, slices inside the input.
 func VerifW() {
 	n := vRange("n", 0, vParam("N", 3))
 	b := vBytes("b", n)
-	p := NewParser(parse.NewInputBytes(b))
+	in := append(make([]byte, 0, n+1), b...) // spare capacity: the parser works in place
+	z := parse.NewInputBytes(in)
+	whole := z.Bytes()
+	p := NewParser(z)
+	var stack []int
+	prevEnd := 0
+	prevKind := 0 // 0 none, 1 start, 2 key, 3 value or end
+	policy := vRange("policy", 0, 1)
+	ended := false
 	for i := 0; i < 2*n+4; i++ {
 		gt, data := p.Next()
-		vObserve("tok", int(gt), data)
+		vObserve("tok", int(gt), data, int(p.State()))
 		if gt == ErrorGrammar {
+			vAssert(p.Err() != nil, "error-without-err")
+			vAssert(len(data) == 0, "error-with-data")
 			if p.Err() == io.EOF {
 				vReach("eof")
 			} else {
 				vReach("error")
+				_, isPE := p.Err().(*parse.Error)
+				vAssert(isPE, "error-type")
 			}
-			return
+			ended = true
+			// sticky: every further call reports the same again
+			if policy == 1 {
+				e1 := p.Err()
+				gt2, d2 := p.Next()
+				vAssert(gt2 == ErrorGrammar && len(d2) == 0, "not-sticky")
+				if e1 == io.EOF {
+					vAssert(p.Err() == io.EOF, "eof-not-sticky")
+				} else {
+					vAssert(p.Err() != nil && p.Err() != io.EOF, "error-not-sticky")
+				}
+			}
+			break
+		}
+		// every unit is a non-empty slice of the input, after the previous one
+		off := vOffsetIn(data, whole)
+		vAssert(len(data) > 0, "empty-unit")
+		vAssert(off >= prevEnd && off+len(data) <= n, "unit-outside-input")
+		vAssert(cap(data) == len(data), "unit-cap")
+		vAssert(z.Offset() <= n, "offset-past-end")
+		// separators between the previous unit and this one
+		commas, colons, other := 0, 0, 0
+		for j := prevEnd; j < off; j++ {
+			c := whole[j]
+			if c == ',' {
+				commas++
+			} else if c == ':' {
+				colons++
+			} else if !vnIsWS(c) {
+				other++
+			}
+		}
+		vAssert(other == 0, "skipped-non-separator")
+		isEnd := gt == EndObjectGrammar || gt == EndArrayGrammar
+		switch prevKind {
+		case 0, 1:
+			vAssert(colons == 0, "stray-colon")
+		case 2:
+			vAssert(colons == 1 && commas == 0, "missing-colon")
+		case 3:
+			if isEnd {
+				vAssert(commas <= 1 && colons == 0, "bad-separator-before-end")
+			} else {
+				vAssert(commas == 1 && colons == 0, "missing-comma")
+			}
+		}
+		// nesting
+		switch gt {
+		case StartObjectGrammar:
+			stack = append(stack, vnObj)
+			prevKind = 1
+		case StartArrayGrammar:
+			stack = append(stack, vnArr)
+			prevKind = 1
+		case EndObjectGrammar:
+			vAssert(len(stack) > 0 && stack[len(stack)-1] == vnObj, "unmatched-end-object")
+			stack = stack[:len(stack)-1]
+			prevKind = 3
+		case EndArrayGrammar:
+			vAssert(len(stack) > 0 && stack[len(stack)-1] == vnArr, "unmatched-end-array")
+			stack = stack[:len(stack)-1]
+			prevKind = 3
+		default:
+			if p.State() == ObjectValueState {
+				vAssert(gt == StringGrammar && data[0] == '"', "key-not-string")
+				prevKind = 2
+			} else {
+				prevKind = 3
+			}
+		}
+		// State() describes the innermost open container
+		st := p.State()
+		if len(stack) == 0 {
+			vAssert(st == ValueState, "state-toplevel")
+		} else if stack[len(stack)-1] == vnArr {
+			vAssert(st == ArrayState, "state-array")
+		} else {
+			vAssert(st == ObjectKeyState || st == ObjectValueState, "state-object")
+		}
+		prevEnd = off + len(data)
+	}
+	vAssert(ended, "no-termination")
+}
+
+// VerifValid: every document the RFC 8259 reference accepts is parsed without
+// error and the units re-joined with ',' / ':' equal the compacted input.
+func VerifValid() {
+	n := vRange("n", 1, vParam("N", 3))
+	b := vBytes("b", n)
+	vAssume(refValid(b))
+	vReach("valid")
+	want := refCompact(b)
+	p := NewParser(parse.NewInputBytes(append(make([]byte, 0, n+1), b...)))
+	var out []byte
+	needSep := false
+	for i := 0; i < 2*n+4; i++ {
+		gt, data := p.Next()
+		if gt == ErrorGrammar {
+			vAssert(p.Err() == io.EOF, "valid-document-rejected")
+			break
+		}
+		isEnd := gt == EndObjectGrammar || gt == EndArrayGrammar
+		if needSep && !isEnd {
+			out = append(out, ',')
+		}
+		out = append(out, data...)
+		switch {
+		case gt == StartObjectGrammar || gt == StartArrayGrammar:
+			needSep = false
+		case !isEnd && p.State() == ObjectValueState:
+			out = append(out, ':')
+			needSep = false
+		default:
+			needSep = true
 		}
 	}
-	vAssert(false, "no-termination")
+	vObserve("out", out)
+	vAssert(string(out) == string(want), "rejoined-differs")
 }
